@@ -962,6 +962,7 @@ impl Prop for C18Reopen {
             for op in &h.ops {
                 let oa = a.step(op);
                 let ob = if matches!(op, Op::Reopen) {
+                    b.skip();
                     StepObs::Noop
                 } else {
                     b.step(op)
@@ -1321,6 +1322,49 @@ pub fn hist_prop(id: &str) -> HistProp {
     }
 }
 
+/// Scripted histories of one long-lived client: it renews a second before its lease runs out,
+/// again and again, so that the lease grows to the maximum (300, 897, 2688, ... 86400 s) and
+/// stays there; then the server restarts in the second of the last renewal, the client stays
+/// away until the lease has run out and comes back, and another client asks for its address in
+/// between.  Generated histories of 40 operations practically never get a lease past an hour.
+pub fn long_lived_histories() -> Vec<History> {
+    let clients = vec![
+        ClientSpec { chaddr: vec![2, 0, 0, 0, 0, 0], client_id: None, hostname: None },
+        ClientSpec { chaddr: vec![2, 0, 0, 0, 0, 1], client_id: None, hostname: None },
+    ];
+    let mut out = vec![];
+    for (pool, renewals, variant) in [(vec![0u8], 9usize, 0u8), (vec![0u8, 1], 9, 1), (vec![0u8], 14, 2), (vec![0u8, 1], 6, 3)] {
+        let world = World { clients: clients.clone(), universe: 2, pools: vec![pool.clone()], file_backed: true };
+        let mut ops = vec![
+            Op::Discover { client: 0, pool: 0, requested: Addr::None },
+            Op::RequestSel { client: 0, pool: 0, sid: Sid::Ours, requested: Addr::Own },
+        ];
+        for k in 0..renewals {
+            ops.push(Op::AdvanceToExpiry { client: 0, off: 3 });
+            ops.push(Op::RequestRenew { client: 0, pool: 0, sid: if k % 2 == 0 { Sid::Absent } else { Sid::Ours }, ciaddr: Addr::Own });
+            if variant == 1 && k == 4 {
+                ops.push(Op::Reopen);
+            }
+        }
+        // restart right after the last renewal; the other client asks for the holder's address
+        ops.push(Op::Reopen);
+        ops.push(Op::Discover { client: 0xffff, pool: 0, requested: Addr::OfClient(0) });
+        ops.push(Op::RequestSel { client: 0xffff, pool: 0, sid: Sid::Ours, requested: Addr::OfClient(0) });
+        // the holder stays away until its lease has run out, then comes back both ways
+        ops.push(Op::AdvanceToExpiry { client: 0, off: -3 });
+        ops.push(Op::Discover { client: 0, pool: 0, requested: Addr::Own });
+        ops.push(Op::RequestSel { client: 0, pool: 0, sid: Sid::Absent, requested: Addr::Own });
+        if variant >= 2 {
+            ops.push(Op::AdvanceToExpiry { client: 0, off: -3 });
+            ops.push(Op::RequestSel { client: 0, pool: 0, sid: Sid::Absent, requested: Addr::Own });
+            ops.push(Op::Reopen);
+            ops.push(Op::Discover { client: 0xffff, pool: 0, requested: Addr::None });
+        }
+        out.push(History { world, ops });
+    }
+    out
+}
+
 pub fn profile_for(id: &str, tier: Tier, file_backed: bool) -> Profile {
     let mut p = Profile::base(tier.pick(40, 150));
     p.file_backed = file_backed;
@@ -1346,6 +1390,10 @@ pub fn profile_for(id: &str, tier: Tier, file_backed: bool) -> Profile {
 
 pub fn run_hist_func(ctx: &Ctx, id: &str) {
     let prop = hist_prop(id);
+    run_list(ctx, &prop, long_lived_histories());
+    if !ctx.violations.lock().unwrap().is_empty() {
+        return;
+    }
     let n = ctx.tier.pick(16_000u64, 400_000u64);
     // 3/4 in memory, 1/4 file backed with reopen (restart) steps
     run_prop(ctx, &prop, || history_strategy(profile_for(id, ctx.tier, false)), n * 3 / 4, workers());
@@ -1367,6 +1415,10 @@ pub fn replay(id: &str, sub: &str, case: &serde_json::Value) -> Option<Result<Ou
 }
 
 pub fn run_c18_func(ctx: &Ctx) {
+    run_list(ctx, &C18Reopen, long_lived_histories());
+    if !ctx.violations.lock().unwrap().is_empty() {
+        return;
+    }
     let n = ctx.tier.pick(6000u64, 100_000u64);
     run_prop(ctx, &C18Reopen, || history_strategy(profile_for("C18", ctx.tier, true)), n, workers());
     let n2 = ctx.tier.pick(1500u64, 30_000u64);
